@@ -318,6 +318,7 @@ func c13r7(r *R) {
 	dc := r.method(".", "Dialer", "DialContext")
 	var dialAlloc, closeAlloc ssa.Value
 	var dialTerm, closeTerm string
+	byTerm := false
 	eachInstr(dc, func(ins ssa.Instruction) {
 		if c, ok := ins.(*ssa.Call); ok && calleeName(c.Common()) == "(*forwarder.dialerMetrics).dial" {
 			a := refArgs(c.Common())[1]
@@ -330,6 +331,21 @@ func c13r7(r *R) {
 		}
 		if mc, ok := ins.(*ssa.MakeClosure); ok {
 			lit := mc.Fn.(*ssa.Function)
+			if lit.Synthetic != "" {
+				// a method value of a small struct built here (the literal became a method): compare the values
+				if m := boundTarget(lit); m != nil && isNewHelper(m) {
+					for _, c := range calls(m, nameIs("(*forwarder.dialerMetrics).close")) {
+						closeTerm = describe(refArgs(c.Common())[1])
+						if b := closureBindings(m); len(b) > 0 {
+							for k := len(b) - 1; k >= 0; k-- {
+								closeTerm = strings.ReplaceAll(closeTerm, fmt.Sprintf("^%d", k), b[k])
+							}
+						}
+						byTerm = true
+					}
+				}
+				return
+			}
 			for _, c := range calls(lit, nameIs("(*forwarder.dialerMetrics).close")) {
 				a := refArgs(c.Common())[1]
 				closeTerm = describe(a)
@@ -345,6 +361,10 @@ func c13r7(r *R) {
 			}
 		}
 	})
+	if byTerm {
+		r.check(dialTerm != "" && dialTerm == closeTerm, "Dialer.DialContext#gauge-label", dc.Pos(), "dial() and close() are given the same value ("+dialTerm+")", "dial() counts "+dialTerm+" but close() un-counts "+closeTerm+": the gauge of one address never returns to zero")
+		return
+	}
 	if dialAlloc == nil || closeAlloc == nil {
 		r.bad("Dialer.DialContext#gauge-label", dc.Pos(), "could not find the dial/close accounting pair (dial="+dialTerm+", close="+closeTerm+")")
 		return
